@@ -215,7 +215,7 @@ def cases(ctx):
         yield "tropopause", {}
         yield "atmos", {"H": [10999.999999, 11000.0, 11000.000001, 0.0, -500.0, 20000.0]}
     i += 1
-    for k in range(ctx.share(400 if quick else 3000)):
+    for k in range(ctx.share(400 if quick else 12000)):
         yield "atmos", {"H": [rng.uniform(-500, 20000) for _ in range(40)]}
     # speed grids at fixed altitudes
     alts = [0.0, -500.0, 1.0, 1000.0, 5000.0, 10999.0, 11000.0, 11001.0, 15000.0, 20000.0]
@@ -227,7 +227,7 @@ def cases(ctx):
             ms = sorted(set([0.001, 1.3] + [1.3 * (k + 1) / n for k in range(n)]))
             yield "speed", {"H": H, "v": vs, "m": ms}
         i += 1
-    for k in range(ctx.share(600 if quick else 5000)):
+    for k in range(ctx.share(600 if quick else 20000)):
         H = rng.choice((rng.uniform(-500, 20000), rng.uniform(10990, 11010), 0.0))
         vs = sorted(rng.uniform(0.5, 450) for _ in range(30))
         vs = [v for j, v in enumerate(vs) if j == 0 or v - vs[j - 1] > 1e-6]
@@ -237,7 +237,7 @@ def cases(ctx):
     # geo
     def rp():
         return [math.degrees(math.asin(rng.uniform(-1, 1))), rng.uniform(-180, 180)]
-    for k in range(ctx.share(1200 if quick else 6000)):
+    for k in range(ctx.share(1200 if quick else 24000)):
         kind = ("uniform", "antipodal", "identical", "polar", "antimeridian", "near")[k % 6]
         pairs = []
         for _ in range(40):
